@@ -186,7 +186,7 @@ structure RemoteInv (r : R) : Prop where
 /-- **init_establishes_rinv.** After a restart in *any* local state (database restored from an older
     backup, local level-0 directory lost, cache gone), a successful `init` re-establishes the full
     invariant — in particular "the remote is not ahead of the database" — for every fault assignment. -/
-theorem init_establishes_rinv (φ : Assign) (r : R) (h : RemoteInv r) (hpos : r.pos = 0)
+theorem init_establishes_rinv (φ : Assign) (r : R) (h : RemoteInv r) (hpos : r.pos ≠ 0 → r.pos = maxOf r.remote)
     (hok : (initCheck φ r).2 = .ok) : RInv (initCheck φ r).1 := by
   unfold initCheck at hok ⊢
   cases h0 : φ r.k with
@@ -194,7 +194,7 @@ theorem init_establishes_rinv (φ : Assign) (r : R) (h : RemoteInv r) (hpos : r.
     simp only [h0] at hok ⊢
     by_cases hc : maxOf r.remote = 0 ∨ maxOf r.remote ≤ r.dbPos
     · rw [if_pos hc]
-      exact ⟨h.contig, h.lo_pos, h.lo_le, fun hp => absurd hpos hp, by rcases hc with hc | hc <;> simp only <;> omega⟩
+      exact ⟨h.contig, h.lo_pos, h.lo_le, hpos, by rcases hc with hc | hc <;> simp only <;> omega⟩
     · rw [if_neg hc] at hok ⊢
       cases h1 : φ (r.k + 1) with
       | ok => simp only [h1]; exact ⟨h.contig, h.lo_pos, h.lo_le, fun hp => absurd rfl hp, Nat.le_refl _⟩
@@ -225,7 +225,8 @@ theorem open_no_false_ack (φ : Assign) (r : R) (h : RemoteInv r) (hpos : r.pos 
   cases res with
   | ok =>
     simp only [hi] at hack ⊢
-    have hinv : RInv r1 := by have := init_establishes_rinv φ r h hpos (by rw [hi]); rwa [hi] at this
+    have hinv : RInv r1 := by
+      have := init_establishes_rinv φ r h (fun hp => absurd hpos hp) (by rw [hi]); rwa [hi] at this
     exact syncAndWait_no_false_ack φ r1 hinv (by simpa using hack)
   | errList => simp [hi] at hack
   | errOpen => simp [hi] at hack
@@ -236,6 +237,73 @@ theorem open_no_false_ack (φ : Assign) (r : R) (h : RemoteInv r) (hpos : r.pos 
 theorem behind_without_check_false_ack :
     (syncOnce (fun _ => .ok) 0 ⟨[3, 2, 1], 1, 0, 1, 1, 0⟩).2 = .ok
     ∧ (syncOnce (fun _ => .ok) 0 ⟨[3, 2, 1], 1, 0, 1, 1, 0⟩).1.remote = [3, 2, 1] := by decide
+
+/-! ## run-time reset of the local state: the baseline obligation -/
+
+/-- **baseline_failed_stays_pending.** A baseline attempt that fails (listing or download fault) leaves
+    the obligation pending: the next `DB.Sync` retries it. -/
+theorem baseline_failed_stays_pending (φ : Assign) (b : B) (hp : b.pending = true)
+    (hf : (baselineStep φ b).2 ≠ .ok) : (baselineStep φ b).1.pending = true := by
+  unfold baselineStep at hf ⊢
+  rw [if_pos hp] at hf ⊢
+  rcases hi : initCheck φ b.r with ⟨r1, e⟩
+  rw [hi] at hf
+  cases e with
+  | ok => exact absurd rfl hf
+  | errList => rfl
+  | errOpen => rfl
+
+/-- The flag is only ever cleared together with a successful check, which re-establishes `RInv`. -/
+theorem baseline_cleared_implies_rinv (φ : Assign) (b : B) (hp : b.pending = true) (h : RemoteInv b.r)
+    (hpos : b.r.pos ≠ 0 → b.r.pos = maxOf b.r.remote)
+    (hc : (baselineStep φ b).1.pending = false) : RInv (baselineStep φ b).1.r := by
+  unfold baselineStep at hc ⊢
+  rw [if_pos hp] at hc ⊢
+  rcases hi : initCheck φ b.r with ⟨r1, e⟩
+  rw [hi] at hc
+  cases e with
+  | ok =>
+    have := init_establishes_rinv φ b.r h hpos (by rw [hi])
+    rw [hi] at this
+    exact this
+  | errList => cases hc
+  | errOpen => cases hc
+
+/-- After a run-time reset, whatever faults hit the first attempt, an attempt once faults have stopped
+    clears the obligation with the invariant restored (remote state untouched by failed attempts). -/
+theorem baseline_retry_succeeds (φ1 φ2 : Assign) (b : B) (hp : b.pending = true)
+    (hok : ∀ i, φ2 i = .ok) (hf : (baselineStep φ1 b).2 ≠ .ok) :
+    (baselineStep φ2 (baselineStep φ1 b).1).2 = .ok ∧ (baselineStep φ2 (baselineStep φ1 b).1).1.pending = false := by
+  have hp1 := baseline_failed_stays_pending φ1 b hp hf
+  generalize (baselineStep φ1 b).1 = b1 at hp1
+  have hall : (initCheck φ2 b1.r).2 = .ok := by
+    unfold initCheck
+    simp only [hok]
+    split <;> rfl
+  unfold baselineStep
+  rw [if_pos hp1]
+  rcases hi : initCheck φ2 b1.r with ⟨r1, e⟩
+  rw [hi] at hall
+  simp only at hall
+  subst hall
+  exact ⟨rfl, rfl⟩
+
+/-- **Witness (kernel-checked): clearing the flag first loses the obligation.** Remote `{1,2,3}`, local
+    state reset, the listing of the first attempt fails; with `Swap(false)` the fault-free retry does
+    nothing, the database restarts below the replica, and `syncOnce` returns nil without uploading. -/
+theorem clear_first_loses_baseline :
+    let b0 : B := resetLocal ⟨⟨[3, 2, 1], 1, 3, 3, 1, 0⟩, false⟩
+    let φ1 : Assign := fun k => if k = 0 then .failBefore else .ok
+    let ok : Assign := fun _ => .ok
+    -- the code as it is: still pending, retry re-bases the database at the remote maximum
+    (baselineStep φ1 b0).1.pending = true
+    ∧ (baselineStep ok (baselineStep φ1 b0).1).1.r.dbPos = 3
+    -- clearing first: obligation gone, retry is a no-op, the next transaction is "acknowledged" unsent
+    ∧ (baselineStepClearFirst φ1 b0).1.pending = false
+    ∧ (baselineStepClearFirst ok (baselineStepClearFirst φ1 b0).1).1.r.dbPos = 0
+    ∧ (syncOnce ok 0 (commit (baselineStepClearFirst ok (baselineStepClearFirst φ1 b0).1).1.r)).2 = .ok
+    ∧ (syncOnce ok 0 (commit (baselineStepClearFirst ok (baselineStepClearFirst φ1 b0).1).1.r)).1.remote = [3, 2, 1] := by
+  decide
 
 /-! ## restorable throughout (through C08's planner) -/
 
